@@ -9,9 +9,12 @@ import (
 	"io"
 	"io/ioutil"
 	"os"
+	"path/filepath"
 	"time"
 
 	"github.com/oneconcern/datamon/pkg/cafs"
+	"github.com/oneconcern/datamon/pkg/core"
+	"github.com/oneconcern/datamon/pkg/model"
 	"github.com/oneconcern/datamon/pkg/storage"
 
 	"verif/harness/store"
@@ -163,6 +166,8 @@ func cafsCorrupt(args []string) error {
 	crc := fl.Bool("crc", false, "CRC-capable store")
 	allBytes := fl.Bool("all-bytes", false, "every byte position")
 	seed := fl.Uint64("seed", 1, "seed")
+	download := fl.Bool("download", false, "also observe the damage through a bundle download (core.Publish)")
+	work := fl.String("work", "", "scratch directory (for --download)")
 	_ = fl.Parse(args)
 	ref := refine{L: *cells, Lambda: *lambda, Boundary: *boundary, Seed: *seed}
 	cfg := &cafsCfg{ref: ref, crc: *crc}
@@ -347,7 +352,93 @@ func cafsCorrupt(args []string) error {
 			}
 		}
 	}
-	if err := vutil.Isolated("cafs-corrupt", *in, res, run, 40*time.Second); err != nil {
+	runDownload := func(i int, line []byte, r *vutil.BehResult, c corruptCase, content []byte) {
+		wdir := filepath.Join(*work, fmt.Sprintf("cd%d", i))
+		defer os.RemoveAll(wdir)
+		e := newMetaEnv(wdir, *lambda, *seed, *crc)
+		stores, _ := e.client()
+		if err := core.CreateRepo(model.RepoDescriptor{Name: "r1", Description: "d", Timestamp: time.Now(), Contributor: contributor()}, stores); err != nil {
+			panic(err)
+		}
+		src := e.scratch("src")
+		if err := os.WriteFile(filepath.Join(src, "f"), content, 0600); err != nil {
+			panic(err)
+		}
+		up := e.newBundle(stores, "r1", e.ksuidFor(1), localStore(src))
+		if err := core.Upload(context.Background(), up); err != nil {
+			panic(err)
+		}
+		snapshot := e.w.Snapshot("blob")
+		tk, _ := ref.concrete(c.Target)
+		orig, ok := snapshot[tk.String()]
+		if !ok {
+			r.Mismatches = append(r.Mismatches, vutil.Mismatch{Beh: i, Op: "setup", Sig: "corrupt/download/target-blob-missing"})
+			return
+		}
+		var otherLeaf []byte
+		if c.Kind == "swap" {
+			lk, _ := ref.concreteLeaf(rootLeaves(c, ref)[c.Arg-1])
+			otherLeaf = snapshot[lk.String()]
+		}
+		what := "root"
+		if !c.IsRoot {
+			what = "leaf"
+		}
+		for _, d := range variants(c, ref, orig, false, otherLeaf) {
+			for k, b := range snapshot {
+				e.w.RawSet("blob", k, b)
+			}
+			if d.delete {
+				e.w.RawDelete("blob", tk.String())
+			} else {
+				e.w.RawSet("blob", tk.String(), d.data)
+			}
+			for k, b := range d.extra {
+				e.w.RawSet("blob", k, b)
+			}
+			real := c.Damaged && (d.delete || !bytes.Equal(d.data, orig))
+			for _, conc := range []int{1, 4} {
+				e.conc = conc
+				dstores, _ := e.client()
+				dir := e.scratch("dl")
+				b := e.newBundle(dstores, "r1", e.ksuidFor(1), localStore(dir))
+				var err error
+				panicked := vutil.Guard(r, 0, "download", nil, func() { err = core.Publish(context.Background(), b) })
+				r.Steps++
+				if panicked {
+					continue
+				}
+				got, rerr := os.ReadFile(filepath.Join(dir, "f"))
+				oc := "exact"
+				switch {
+				case err != nil:
+					oc = "error"
+				case rerr != nil || !bytes.Equal(got, content):
+					oc = "wrong"
+				}
+				allowed := c.Whole
+				if !real {
+					allowed = []string{"exact"}
+				}
+				if !allowedHas(allowed, oc) {
+					r.Mismatches = append(r.Mismatches, vutil.Mismatch{Beh: i, Op: "download", Sig: fmt.Sprintf("corrupt/download/%s-%s/%s", what, c.Kind, oc),
+						Expected: allowed, Got: oc,
+						Detail: fmt.Sprintf("core.Publish into a local directory returned %v; the file has %d bytes (stored %d); damage %s", err, len(got), len(content), d.name),
+						Replay: map[string]interface{}{"case": json.RawMessage(line), "variant": d.name, "lambda": *lambda, "crc": *crc}})
+				}
+				_ = os.RemoveAll(dir)
+			}
+		}
+	}
+	runBoth := func(i int, line []byte, r *vutil.BehResult) {
+		run(i, line, r)
+		if *download {
+			var c corruptCase
+			_ = json.Unmarshal(line, &c)
+			runDownload(i, line, r, c, ref.bytesOf(c.Content))
+		}
+	}
+	if err := vutil.Isolated("cafs-corrupt", *in, res, runBoth, 40*time.Second); err != nil {
 		return err
 	}
 	if os.Getenv("VH_CHILD") != "" {
